@@ -51,7 +51,7 @@ package gedcom
 //
 //@ func compareDatesForLetter
 //@   props C06
-//@   let ok = (shapeOK(value.Day, value.Month, value.Year) && shapeOK(start.Day, start.Month, start.Year) && shapeOK(end.Day, end.Month, end.Year)) && (!(value.IsEndOfRange && value.Year == 1 && value.Month <= 1 && value.Day <= 1) && !(end.IsEndOfRange && end.Year == 1 && end.Month <= 1 && end.Day <= 1) && !(start.IsEndOfRange && start.Year == 1 && start.Month <= 1 && start.Day <= 1))
+//@   let ok = (shapeOK(value.Day, value.Month, value.Year) && shapeOK(start.Day, start.Month, start.Year) && shapeOK(end.Day, end.Month, end.Year))
 //@   ensures letter: implies(ok, result == letter(dayOf(value.Day, value.Month, value.Year, value.IsEndOfRange), dayOf(start.Day, start.Month, start.Year, start.IsEndOfRange), dayOf(end.Day, end.Month, end.Year, end.IsEndOfRange)))
 //@   assigns nothing
 //
@@ -61,7 +61,7 @@ package gedcom
 //@   let b = lastDay(dr.end.Day, dr.end.Month, dr.end.Year)
 //@   let c = firstDay(dr2.start.Day, dr2.start.Month, dr2.start.Year)
 //@   let d = lastDay(dr2.end.Day, dr2.end.Month, dr2.end.Year)
-//@   let ok = (shapeOK(dr.start.Day, dr.start.Month, dr.start.Year) && shapeOK(dr.end.Day, dr.end.Month, dr.end.Year) && shapeOK(dr2.start.Day, dr2.start.Month, dr2.start.Year) && shapeOK(dr2.end.Day, dr2.end.Month, dr2.end.Year)) && (!dr.start.IsEndOfRange && dr.end.IsEndOfRange && !dr2.start.IsEndOfRange && dr2.end.IsEndOfRange) && (!(dr.end.Year == 1 && dr.end.Month <= 1 && dr.end.Day <= 1) && !(dr2.end.Year == 1 && dr2.end.Month <= 1 && dr2.end.Day <= 1)) && (a <= b && c <= d)
+//@   let ok = (shapeOK(dr.start.Day, dr.start.Month, dr.start.Year) && shapeOK(dr.end.Day, dr.end.Month, dr.end.Year) && shapeOK(dr2.start.Day, dr2.start.Month, dr2.start.Year) && shapeOK(dr2.end.Day, dr2.end.Month, dr2.end.Year)) && (!dr.start.IsEndOfRange && dr.end.IsEndOfRange && !dr2.start.IsEndOfRange && dr2.end.IsEndOfRange) && (a <= b && c <= d)
 //@   ensures code-shape: implies(ok, result == cmpCode(a, b, c, d))
 //@   ensures doc-relation: implies(ok, inR(result, a, b, c, d))
 //@   ensures never-invalid: implies(ok, result != DateRangeComparisonInvalid)
@@ -102,19 +102,19 @@ package gedcom
 //
 //@ func Date.Years
 //@   props C05
-//@   let ok = (shapeOK(date.Day, date.Month, date.Year)) && (!(date.IsEndOfRange && date.Year == 1 && date.Month <= 1 && date.Day <= 1))
+//@   let ok = (shapeOK(date.Day, date.Month, date.Year))
 //@   ensures scale-code-form: implies(ok, result == yearsSpecDiv(date.Day, date.Month, date.Year))
 //@   ensures scale: implies(ok, result == yearsSpec(date.Day, date.Month, date.Year))
 //@   assigns nothing
 //
 //@ func Date.IsBefore
 //@   props C05
-//@   let ok = (shapeOK(date.Day, date.Month, date.Year) && shapeOK(date2.Day, date2.Month, date2.Year)) && (!(date.IsEndOfRange && date.Year == 1 && date.Month <= 1 && date.Day <= 1) && !(date2.IsEndOfRange && date2.Year == 1 && date2.Month <= 1 && date2.Day <= 1))
+//@   let ok = (shapeOK(date.Day, date.Month, date.Year) && shapeOK(date2.Day, date2.Month, date2.Year))
 //@   ensures order: implies(ok, result == (yearsSpec(date.Day, date.Month, date.Year) < yearsSpec(date2.Day, date2.Month, date2.Year)))
 //@   assigns nothing
 //@ func Date.IsAfter
 //@   props C05
-//@   let ok = (shapeOK(date.Day, date.Month, date.Year) && shapeOK(date2.Day, date2.Month, date2.Year)) && (!(date.IsEndOfRange && date.Year == 1 && date.Month <= 1 && date.Day <= 1) && !(date2.IsEndOfRange && date2.Year == 1 && date2.Month <= 1 && date2.Day <= 1))
+//@   let ok = (shapeOK(date.Day, date.Month, date.Year) && shapeOK(date2.Day, date2.Month, date2.Year))
 //@   ensures order: implies(ok, result == (yearsSpec(date.Day, date.Month, date.Year) > yearsSpec(date2.Day, date2.Month, date2.Year)))
 //@   assigns nothing
 //
@@ -139,7 +139,7 @@ package gedcom
 //@   assigns nothing
 //@ func Date.Sub
 //@   props C05
-//@   let ok = (shapeOK(date.Day, date.Month, date.Year) && shapeOK(date2.Day, date2.Month, date2.Year)) && (!(date.IsEndOfRange && date.Year == 1 && date.Month <= 1 && date.Day <= 1) && !(date2.IsEndOfRange && date2.Year == 1 && date2.Month <= 1 && date2.Day <= 1))
+//@   let ok = (shapeOK(date.Day, date.Month, date.Year) && shapeOK(date2.Day, date2.Month, date2.Year))
 // (two instants more than a Duration - about 292 years - apart are outside this
 // clause: time.Time.Sub saturates there and Date.Sub returns a wrong, possibly
 // negative, distance; no listed property speaks about such distances - noted
@@ -150,14 +150,14 @@ package gedcom
 //@   assigns nothing
 //@ func DateRange.Duration
 //@   props C05
-//@   let ok = (shapeOK(dr.start.Day, dr.start.Month, dr.start.Year) && shapeOK(dr.end.Day, dr.end.Month, dr.end.Year)) && (!dr.start.IsEndOfRange && dr.end.IsEndOfRange && !(dr.end.Year == 1 && dr.end.Month <= 1 && dr.end.Day <= 1)) && (firstDay(dr.start.Day, dr.start.Month, dr.start.Year) <= lastDay(dr.end.Day, dr.end.Month, dr.end.Year))
+//@   let ok = (shapeOK(dr.start.Day, dr.start.Month, dr.start.Year) && shapeOK(dr.end.Day, dr.end.Month, dr.end.Year)) && (!dr.start.IsEndOfRange && dr.end.IsEndOfRange) && (firstDay(dr.start.Day, dr.start.Month, dr.start.Year) <= lastDay(dr.end.Day, dr.end.Month, dr.end.Year))
 // (for ranges no longer than a Duration can hold, about 292 years; the period
 // of a single date - what C05 speaks about - is at most 366 days)
 //@   ensures length: implies(ok && (lastDay(dr.end.Day, dr.end.Month, dr.end.Year) - firstDay(dr.start.Day, dr.start.Month, dr.start.Year) + 1)*NSDAY - 1 <= 9223372036854775807, result.Duration == (lastDay(dr.end.Day, dr.end.Month, dr.end.Year) - firstDay(dr.start.Day, dr.start.Month, dr.start.Year) + 1)*NSDAY - 1)
 //@   assigns nothing
 //@ func DateRange.Years
 //@   props C05 C12
-//@   let ok = (shapeOK(dr.start.Day, dr.start.Month, dr.start.Year) && shapeOK(dr.end.Day, dr.end.Month, dr.end.Year)) && (!dr.start.IsEndOfRange && dr.end.IsEndOfRange && !(dr.end.Year == 1 && dr.end.Month <= 1 && dr.end.Day <= 1))
+//@   let ok = (shapeOK(dr.start.Day, dr.start.Month, dr.start.Year) && shapeOK(dr.end.Day, dr.end.Month, dr.end.Year)) && (!dr.start.IsEndOfRange && dr.end.IsEndOfRange)
 //@   ensures midpoint: implies(ok, result == (yearsSpec(dr.start.Day, dr.start.Month, dr.start.Year) + yearsSpec(dr.end.Day, dr.end.Month, dr.end.Year))/2.0)
 //@   assigns nothing
 //@ func DateRange.IsBefore
@@ -167,7 +167,7 @@ package gedcom
 //@   assigns nothing
 //@ func DateRange.IsAfter
 //@   props C05
-//@   let ok = (shapeOK(dr.end.Day, dr.end.Month, dr.end.Year) && shapeOK(dr2.end.Day, dr2.end.Month, dr2.end.Year) && dr.end.IsEndOfRange && dr2.end.IsEndOfRange) && (!(dr.end.Year == 1 && dr.end.Month <= 1 && dr.end.Day <= 1) && !(dr2.end.Year == 1 && dr2.end.Month <= 1 && dr2.end.Day <= 1))
+//@   let ok = (shapeOK(dr.end.Day, dr.end.Month, dr.end.Year) && shapeOK(dr2.end.Day, dr2.end.Month, dr2.end.Year) && dr.end.IsEndOfRange && dr2.end.IsEndOfRange)
 //@   ensures order: implies(ok, result == (yearsSpec(dr.end.Day, dr.end.Month, dr.end.Year) > yearsSpec(dr2.end.Day, dr2.end.Month, dr2.end.Year)))
 //@   assigns nothing
 
@@ -179,7 +179,7 @@ package gedcom
 //
 //@ func DateRange.Similarity
 //@   props C12
-//@   let ok = shapeOK(dr.start.Day, dr.start.Month, dr.start.Year) && shapeOK(dr.end.Day, dr.end.Month, dr.end.Year) && !dr.start.IsEndOfRange && dr.end.IsEndOfRange && !(dr.end.Year == 1 && dr.end.Month <= 1 && dr.end.Day <= 1) && shapeOK(dr2.start.Day, dr2.start.Month, dr2.start.Year) && shapeOK(dr2.end.Day, dr2.end.Month, dr2.end.Year) && !dr2.start.IsEndOfRange && dr2.end.IsEndOfRange && !(dr2.end.Year == 1 && dr2.end.Month <= 1 && dr2.end.Day <= 1)
+//@   let ok = shapeOK(dr.start.Day, dr.start.Month, dr.start.Year) && shapeOK(dr.end.Day, dr.end.Month, dr.end.Year) && !dr.start.IsEndOfRange && dr.end.IsEndOfRange && shapeOK(dr2.start.Day, dr2.start.Month, dr2.start.Year) && shapeOK(dr2.end.Day, dr2.end.Month, dr2.end.Year) && !dr2.start.IsEndOfRange && dr2.end.IsEndOfRange
 //@   ensures value: implies(ok && maxYears > 0.0, result == simSpec(rangeYears(dr.start.Day, dr.start.Month, dr.start.Year, dr.end.Day, dr.end.Month, dr.end.Year) - rangeYears(dr2.start.Day, dr2.start.Month, dr2.start.Year, dr2.end.Day, dr2.end.Month, dr2.end.Year), maxYears))
 //@   ensures range: implies(maxYears > 0.0, 0.0 <= result && result <= 1.0)
 //@   assigns nothing
